@@ -6,7 +6,7 @@ rnd = sys.argv[3] if len(sys.argv) > 3 else ""
 p = [json.loads(l) for l in open('/verif/properties.jsonl') if json.loads(l)['id'] == pid][0]
 wt = "/tmp/wt-%s%s" % (pid, rnd and "-r"+rnd)
 out = "/tmp/mut-%s%s" % (pid, rnd and "-r"+rnd)
-hint = " Other reviewers have already tried changes in the most obvious functions named by the property; prefer less obvious sites: helper functions, type and format conversions, caches and memoised values, sort comparators, error and retry paths, rarely used options or fields, defaults, and interactions with what the Kubernetes API server or the peer does." if rnd == "3" else ""
+hint = " Other reviewers have already tried changes in the most obvious functions named by the property; prefer less obvious sites: helper functions, type and format conversions, caches and memoised values, sort comparators, error and retry paths, rarely used options or fields, defaults, and interactions with what the Kubernetes API server or the peer does." if rnd == "3" else (" Several reviewers have already delivered changes inside the functions and files named by the property. Look further afield: code in OTHER files and packages that the property silently depends on (callers and callees of the listed files, the reconcilers and the work-queue protocol around them, configuration parsing that feeds them, shared helper packages, generated or templated artefacts, what is cached or memoised between events), inputs in rarely used but valid forms, and sequences in which an error or a retry happens in the middle. Avoid changes that need a failing BGP session layer call to manifest." if rnd == "4" else "")
 print(f"""You are helping to evaluate a test suite for the Go project metallb/metallb (a bare-metal Kubernetes load-balancer). You have your own scratch git worktree of the repository at {wt} . Work ONLY inside {wt} and {out} (create {out}). Do NOT read or touch /verif or /repo, and do not use the network (there is none).
 
 Here is a semantic property the code base is supposed to satisfy:
